@@ -275,6 +275,17 @@ pub fn adapters() {
     let _ = ReadWords::<u8, Queue>::read(&mut fit); let _ = ReadWords::<u8, Queue>::read(&mut fit);
     assert!(ReadWords::<u8, Queue>::read(&mut fit) == Ok(None), "C17: iterator adapter end-of-data");
     assert!(ReadWords::<u8, Queue>::read(&mut fit) == Ok(None), "C17: iterator adapter end-of-data must be sticky");
+    // a source that is NOT fused (yields again after its first None): end-of-data must still be sticky
+    struct Flaky { k: u8 }
+    impl Iterator for Flaky { type Item = Result<u8, ()>; fn next(&mut self) -> Option<Self::Item> { self.k += 1; if self.k % 2 == 1 { Some(Ok(self.k)) } else { None } } }
+    let mut nf = InfallibleIteratorReadWords::new::<_, u8, ()>(Flaky { k: 0 });
+    assert!(matches!(ReadWords::<Result<u8, ()>, Queue>::read(&mut nf), Ok(Some(Ok(1)))), "C17: iterator adapter must yield the first item");
+    assert!(matches!(ReadWords::<Result<u8, ()>, Queue>::read(&mut nf), Ok(None)), "C17: iterator adapter end-of-data");
+    assert!(matches!(ReadWords::<Result<u8, ()>, Queue>::read(&mut nf), Ok(None)), "C17: end-of-data must be sticky also over a non-fused iterator");
+    let mut ff = FallibleIteratorReadWords::new(Flaky { k: 0 });
+    assert!(ReadWords::<u8, Queue>::read(&mut ff) == Ok(Some(1)), "C17: fallible iterator adapter must yield the first item");
+    assert!(ReadWords::<u8, Queue>::read(&mut ff) == Ok(None), "C17: fallible iterator adapter end-of-data");
+    assert!(ReadWords::<u8, Queue>::read(&mut ff) == Ok(None), "C17: end-of-data must be sticky also over a non-fused iterator (fallible adapter)");
     let mut got = [0u8; 2]; let mut n = 0usize;
     {
         let mut cb = InfallibleCallbackWriteWords::new(|w: u8| { got[n] = w; n += 1; });
